@@ -258,6 +258,14 @@ def run_case(ctx, i, rng):
             ctx.evaluated(('early', i), nontrivial=False)
             return
         ctx.count('restarts')
+        if r0.get('capped'):
+            # bounded progress: no job hangs in these workloads (every job
+            # ends within a few dozen iterations), so the stop requested at
+            # iteration `at` must have completed long before the cap
+            ctx.violation(f'C43:stop-{kind}-never-completed',
+                          f'stop --{kind} requested at iteration {at}: the '
+                          f'scheduler was still running at iteration '
+                          f'{r0.get("iterations")} (harness cap)', detail)
         live = ((r0.get('monitors') or {}).get('stopw') or {}).get(
             'live_at_exit') or []
         if kind == 'clean' and live:
